@@ -200,6 +200,47 @@ def r15_4(chk):
     ok = bool(saved) and all(back.get(k) == a for k, a in saved.items())
     chk.inst("R15.4", f"{COV}::Cov::pickle-pairing", ok, f"every value is restored to the attribute it was taken from: {saved}" if ok else
              f"saved {saved} but restored {back}: an attribute comes back holding another attribute's value", loc(cred, cred.node))
+    # the state carries its Date through the pickle: every slot `Date.__init__` fills is saved from that slot and restored
+    # to that slot (wave p: own-scale `self.d` saved into the TAI slot `_d`; `eop` / `_offset` recomputed on the way back)
+    DATE = "beyond/dates/date.py"
+    dget, dset, dinit = repo.try_func(DATE, "Date.__getstate__"), repo.try_func(DATE, "Date.__setstate__"), repo.try_func(DATE, "Date.__init__")
+    if dget is None or dset is None or dinit is None:
+        chk.inst("R15.4", f"{DATE}::Date::pickle-pairing", False, "Date.__getstate__ / __setstate__ / __init__ not found", DATE)
+    else:
+        def slots(fn):
+            """{slot: value node} of the `super().__setattr__("slot", value)` statements of `fn`."""
+            out = {}
+            for n in ast.walk(fn.node):
+                if isinstance(n, ast.Call) and isinstance(n.func, ast.Attribute) and n.func.attr == "__setattr__" and len(n.args) == 2 \
+                        and isinstance(n.args[0], ast.Constant) and unparse(n.func.value) in ("super()", "object"):
+                    out[n.args[0].value] = n.args[1]
+                elif isinstance(n, ast.Call) and unparse(n.func) == "object.__setattr__" and len(n.args) == 3 and isinstance(n.args[1], ast.Constant):
+                    out[n.args[1].value] = n.args[2]
+            return out
+        filled = {k for k in slots(dinit) if k != "_cache"}
+        dsaved = {}
+        for n in ast.walk(dget.node):
+            if isinstance(n, ast.Dict):
+                for k, v in zip(n.keys, n.values):
+                    if isinstance(k, ast.Constant):
+                        dsaved[k.value] = v.attr if isinstance(v, ast.Attribute) and isinstance(v.value, ast.Name) and v.value.id == "self" else unparse(v)
+        st = dset.params()[1] if len(dset.params()) > 1 else "state"
+        dback = {}
+        local = {}
+        for n in ast.walk(dset.node):
+            if isinstance(n, ast.Assign) and len(n.targets) == 1 and isinstance(n.targets[0], ast.Name):
+                local.setdefault(n.targets[0].id, []).append(n.value)
+        for slot, v in slots(dset).items():
+            if isinstance(v, ast.Name) and len(local.get(v.id, [])) == 1:
+                v = local[v.id][0]           # a value read into a local first
+            if isinstance(v, ast.Subscript) and isinstance(v.slice, ast.Constant) and unparse(v.value) == st:
+                dback[v.slice.value] = slot
+            elif slot != "_cache":
+                dback[f"<{unparse(v)[:40]}>"] = slot
+        ok = bool(dsaved) and set(dsaved.values()) == filled and all(dback.get(k) == a for k, a in dsaved.items()) and set(dback.values()) == filled
+        chk.inst("R15.4", f"{DATE}::Date::pickle-pairing", ok, f"every slot __init__ fills ({sorted(filled)}) is saved from itself and restored to itself" if ok else
+                 f"__init__ fills {sorted(filled)}; saved {dsaved}; restored {dback}: a slot is not saved, is saved from another reading, or is recomputed instead of restored",
+                 loc(dget, dget.node))
     # an unpickled array owns its memory: `.base` (which copy(), the setters, as_orbit / as_statevector go through) must not be None
     for rel_, cls_ in ((SV, "StateVector"), (COV, "Cov")):
         b = repo.try_func(rel_, f"{cls_}.base")
@@ -234,7 +275,7 @@ def r15_4(chk):
     fresh_infos(chk, "R15.4")
     memo_census(chk, "R15.4", only={"beyond/orbits/statevector.py::Infos.kep", "beyond/orbits/statevector.py::Infos.sphe", "beyond/orbits/statevector.py::StateVector.infos",
                                      "beyond/orbits/ephem.py::Ephem.interp"})
-    chk.floor("R15.4", 12)
+    chk.floor("R15.4", 13)
 
 
 def r15_6(chk):
